@@ -291,6 +291,7 @@ class Evaluator:
             blk = fn.blocks[b]
             for s in blk["st"]:
                 if s["s"] == "assign":
+                    self.cur_fn, self.cur_dest = fn, s["d"]
                     self.write_place(env, s["d"], self.rvalue(env, s["rv"]))
             t = blk["term"]
             k = t["t"]
@@ -314,9 +315,12 @@ class Evaluator:
                 b = nxt if nxt is not None else t["otherwise"]
             elif k == "call":
                 args2 = [self.operand(env, o) for o in t["args"]]
+                self.cur_fn = fn
                 r = self.call(t, args2, depth)
                 if t["to"] is None:
                     return ("diverges", (t["f"].get("res") or t["f"].get("path")))
+                if isinstance(r, tuple) and r and r[0] == "diverges":
+                    return r
                 self.write_place(env, t["d"], r)
                 b = t["to"]
             elif k == "unreachable":
